@@ -82,7 +82,7 @@ CLAIMS.update({
              'L3 batch partitions are released at workflow end (release judged by its effects); L4 every [-1]/pop on a tier stored list and every '
              'free-list remove is dominated by its precondition; L6 an algorithm takes a machine off its per-round free list only when it proposes it; '
              'L12 an algorithm drawing from the ready pool puts the successors of every proposed task into it (taint flow); L13 no process loop is dead (test constant false or contradicting the guards before it); L10/L11 every attribute and name read in a function reachable from the simulation entry points has a definition that can precede the read (else AttributeError/NameError); '
-             'L5/L7/L8/L14/L16 adopt the life-cycle, typestate, reservation-return, pending-volume, transfer-wait, ready-test and transfer-slot rules of C08, C04, C09, C18, C03.',
+             'L5/L7/L8/L14/L16/L17 adopt the life-cycle, typestate, reservation-return, pending-volume, transfer-wait, ready-test, transfer-slot and refused-move-restores rules of C08, C04, C09, C18, C03.',
         note='Each clause is necessary: its violation makes a feasible configuration block forever or raise. Sufficiency is not claimed.',
         ref='DESIGN.md section 4, C05'),
     'C06': dict(
